@@ -35,7 +35,11 @@ Inductive mop :=
 Inductive ccase :=
 | CPlan (d : db) (inputs : list N) (steps : list steprec) (ports : list (N * N)) (out_names : list N)
         (b : bobs) (m : option mres) (step_ids : list N)
-| CMapper (ops : list (mop * mres)).
+| CMapper (ops : list (mop * mres))
+| CEngine (evs : list (db * list N * bobs)) (reruns : list (list N)).
+   (* a real recovered run: for every recovery that was planned, the provenance table dumped from the real database
+      with the independently recorded availability, the real inputs and the real built graph; [reruns]: for every
+      job (other than the failed one) that the run executed more than once, the ids of its job tokens *)
 
 Definition nb_eqb (a b : N * bool) : bool := N.eqb (fst a) (fst b) && Bool.eqb (snd a) (snd b).
 Definition nl_eqb (a b : N * list N) : bool := N.eqb (fst a) (fst b) && same_set N.eqb (snd a) (snd b).
@@ -101,8 +105,28 @@ Fixpoint check_mops (order : list node -> list node) (m : mapper) (ops : list (m
       mres_ok r o && match r with inl m' => check_mops order m' rest | inr _ => true end
   end.
 
+Definition build_ok (d : db) (inputs : list N) (b : bobs) : bool :=
+  match build_graph d inputs, b with
+  | BOk dag info, BObsOk nodes edges avail =>
+      same_set N.eqb (get_nodes dag) nodes
+      && same_set nn_eqb (edges_of (gsucc dag)) edges
+      && same_set nb_eqb (map (fun kv => (fst kv, i_avail (snd kv))) info) avail
+  | BErr, BObsErr => true
+  | _, _ => false
+  end.
+
+(* the tokens the model puts into the recovery graphs of the run *)
+Definition permitted_tokens (evs : list (db * list N * bobs)) : list N :=
+  flat_map (fun e => match build_graph (fst (fst e)) (snd (fst e)) with
+                     | BOk dag _ => get_nodes dag
+                     | _ => []
+                     end) evs.
+
 Definition check_case (c : ccase) : bool :=
   match c with
+  | CEngine evs reruns =>
+      forallb (fun e => build_ok (fst (fst e)) (snd (fst e)) (snd e)) evs
+      && forallb (fun ids => existsb (fun t => mem t (permitted_tokens evs)) ids) reruns
   | CPlan d inputs steps ports out_names b m sids =>
       match build_graph d inputs, b with
       | BOk dag info, BObsOk nodes edges avail =>
